@@ -125,6 +125,15 @@ func otherLanguages() []language.Tag {
 		codes = append(codes, "und-"+sc, "und-"+sc+"-JP", "zh-"+sc)
 	}
 	codes = append(codes, "fr-JP", "zh-JP", "ko-JP", "ryu", "ain", "und-JP-u-ca-japanese", "und-u-rg-jpzzzz", "fr-u-rg-jpzzzz", "de-US")
+	// other languages in every script, with and without a region, a variant, an extension, a
+	// private-use part that spells a supported language (round 6, C18-A-r6: language.Matcher maps
+	// any language written in Jpan to Japanese)
+	for _, l := range strings.Fields("fr de zh ko es ru ar hi pt it nl sv pl tr vi th id he el ain ryu mul und") {
+		for _, sc := range strings.Fields("Jpan Hira Kana Hrkt Hani Hans Hant Latn Cyrl Arab Kore") {
+			codes = append(codes, l+"-"+sc, l+"-"+sc+"-JP", l+"-"+sc+"-US", l+"-"+sc+"-KR")
+		}
+		codes = append(codes, l+"-JP", l+"-US", l+"-GB", l+"-x-ja", l+"-x-en", l+"-x-japanese", l+"-u-rg-jpzzzz", l+"-u-ca-japanese", l+"-t-ja", l+"-t-en", l+"-JP-x-ja", l+"-u-co-unihan", l+"-1996", l+"-x-ja-JP")
+	}
 	seen := map[language.Tag]bool{}
 	var r []language.Tag
 	for _, c := range codes {
@@ -306,6 +315,59 @@ func init() {
 			fe = append(fe, []string{"name", fmt.Sprint(i)})
 		}
 		firstUse(r, fe)
+		// language churn: 5,000 (thorough 70,000) distinct language tags in one process; every 61st
+		// step the English, Japanese, undetermined and two recent tags are asked again (round 6,
+		// C17-B-r6: a bounded table of resolved languages that drifts once 4,096 tags were seen)
+		r.Phase("language churn", func() {
+			steps := 5000
+			if thorough {
+				steps = 70000
+			}
+			probe := func(l language.Tag) string {
+				var b strings.Builder
+				for _, e := range nameTable {
+					b.WriteString(e.title(l))
+					if e.value != nil {
+						b.WriteString(e.value(1, l) + e.value(99, l))
+					}
+				}
+				return b.String()
+			}
+			refEn, refJa := probe(en), probe(ja)
+			var recent []language.Tag
+			for i := 1; i <= steps; i++ {
+				t, err := language.Parse(fmt.Sprintf("%s-x-n%05d", []string{"de", "fr", "zh", "und", "ko"}[i%5], i))
+				if err != nil {
+					continue
+				}
+				got := nameTable[i%len(nameTable)].title(t)
+				evals++
+				if want := nameTable[i%len(nameTable)].title(en); got != want {
+					r.Violate(ev.Violation{Kind: "fallback-not-english", Case: nameCase(nameTable[i%len(nameTable)].titleName, nil, t), Observed: got, Expected: want})
+					break
+				}
+				recent = append(recent, t)
+				if i%61 == 0 || i == steps {
+					bad := ""
+					switch {
+					case probe(en) != refEn:
+						bad = "English names changed"
+					case probe(ja) != refJa:
+						bad = "Japanese names changed"
+					case probe(language.Und) != refEn:
+						bad = "names for the undetermined language are no longer the English ones"
+					case probe(recent[len(recent)-1]) != refEn, probe(recent[len(recent)/2]) != refEn:
+						bad = "names for a language tag used before are no longer the English ones"
+					}
+					evals += 5
+					if bad != "" {
+						r.Violate(ev.Violation{Kind: "names-change-after-many-language-tags", Case: map[string]any{"distinct_language_tags_used_so_far": i, "tags": "de-x-n00001, fr-x-n00002, zh-x-n00003, ... (one title function called with each)"}, Observed: bad, Expected: "the names of a language do not depend on which other languages the process asked for before"})
+						break
+					}
+				}
+			}
+			r.Set("language_churn_distinct_tags", steps)
+		})
 		r.Phase("names after other process histories and under other environments", func() {
 			var es [][]string
 			for _, l := range []string{"und", "fr", "en", "ja", "ja-JP", "zh-Hans", "en-GB", "mul"} {
